@@ -77,6 +77,8 @@ def gen_net(rng, feature=None):
                 layer.update(cout=c, groups=c, k=[1, k], dil=[1, d], pad=[0, p])
         if feature == 'asym' and i == 0:
             layer['pad'] = rng.choice([[1, 0], [0, 1]])
+        if max(layer['pad']) == 1 and min(hh, ww) >= 2 and (feature == 'pmode' or rng.random() < 0.1):
+            layer['pmode'] = rng.choice(['reflect', 'replicate', 'circular'])
         if feature == 'sym':
             layer['pad'] = [layer['pad'][0], layer['pad'][0]] if layer['k'] == [3, 3] else [0, 0]
             if layer['dil'] != [1, 1]:
@@ -93,7 +95,7 @@ def gen_net(rng, feature=None):
             c = convs[-1]['cout']
             i += 1
         if pool_at == i and hh >= 2 and ww >= 2:
-            convs[-1]['pool'] = True
+            convs[-1]['pool'] = 'avg' if rng.random() < 0.25 else 'max'
             hh, ww = hh // 2, ww // 2
         i += 1
     while c * hh * ww > 400:                               # keep |acc| < 2^24: float32 accumulation exact
@@ -108,11 +110,15 @@ def gen_net(rng, feature=None):
         convs.append({'groups': 1, 'stride': [1, 1], 'dil': [1, 1], 'bias': rng.random() < 0.6, 'bn': False,
                       'cout': rng.randint(2, 5), 'k': [kh, kw], 'pad': rng.choice([[0, 0], [0, 0], [kh // 2, kw // 2]]),
                       'final': True})
+        if rng.random() < 0.25:            # the network ends in a depthwise (or one-channel) convolution
+            convs[-1].update(cout=c, groups=c)
         fcs = []
     bits = rng.choice([[8], [4], [2], [2, 4, 8], [2, 4, 8], [4, 8]])
     abits = rng.choice([[8], [4], [2], [2, 4, 8], [2, 4, 8], [2, 8]])
     spec = {'cin': cin, 'h': h, 'w': w, 'convs': convs, 'fcs': fcs, 'wp': bits, 'ap': abits,
             'seed': rng.randrange(2 ** 31)}
+    if feature == 'relu6' or (feature is None and rng.random() < 0.15):
+        spec['act'] = rng.choice(['relu6', 'ReLU6'])      # functional / module form; PACT clip values stay <= 6
     if rng.random() < 0.4:
         spec['bias_mode'] = rng.choice(['neg', 'neg', 'pos', 'both'])
         if rng.random() < 0.6:
@@ -140,12 +146,20 @@ def spec_features(spec):
                 f.add('depthwise-dilation')
         if l.get('final'):
             f.add('fully-conv')
+            if l['groups'] > 1 or (l['cout'] == 1 and l['groups'] == 1):
+                f.add('last-layer-depthwise')
+        if l.get('pmode'):
+            f.add('padding-mode')
+        if l.get('pool') == 'avg':
+            f.add('avgpool')
         if l['stride'] != [1, 1]:
             f.add('stride')
         if l['bn']:
             f.add('bn')
     if any(not l['bias'] for l in spec['fcs']):
         f.add('no-bias')
+    if spec.get('act'):
+        f.add('relu6')
     return f
 
 
@@ -171,11 +185,13 @@ def build_net(spec):
     class Net(nn.Module):
         def __init__(self):
             super().__init__()
+            if spec.get('act') == 'ReLU6':
+                self.act6 = nn.ReLU6()
             c, hh, ww = spec['cin'], spec['h'], spec['w']
             self.conv_names, self.fc_names = [], []
             for i, l in enumerate(spec['convs']):
                 conv = nn.Conv2d(c, l['cout'], tuple(l['k']), tuple(l['stride']), tuple(l['pad']),
-                                 tuple(l['dil']), l['groups'], l['bias'])
+                                 tuple(l['dil']), l['groups'], l['bias'], l.get('pmode', 'zeros'))
                 with torch.no_grad():
                     conv.weight.copy_(torch.randn(conv.weight.shape, generator=g) *
                                       2.0 ** float(torch.empty(1).uniform_(-3, 1, generator=g)))
@@ -199,7 +215,7 @@ def build_net(spec):
                         bn.bias.copy_(torch.randn(l['cout'], generator=g) * 0.2)
                     setattr(self, 'bn%d' % i, bn)
                 if l.get('pool'):
-                    setattr(self, 'pool%d' % i, nn.MaxPool2d(2))
+                    setattr(self, 'pool%d' % i, nn.AvgPool2d(2) if l['pool'] == 'avg' else nn.MaxPool2d(2))
                 self.conv_names.append(i)
                 c = l['cout']
                 hh = out_size(hh, l['k'][0], l['stride'][0], l['pad'][0], l['dil'][0])
@@ -224,7 +240,7 @@ def build_net(spec):
                     x = getattr(self, 'bn%d' % i)(x)
                 if l.get('final'):
                     return x
-                x = Fn.relu(x)
+                x = self.act(x)
                 if l.get('pool'):
                     x = getattr(self, 'pool%d' % i)(x)
             x = x.flatten(1)
@@ -232,8 +248,15 @@ def build_net(spec):
             for j in range(n):
                 x = getattr(self, 'fc%d' % j)(x)
                 if j + 1 < n:
-                    x = Fn.relu(x)
+                    x = self.act(x)
             return x
+
+        def act(self, x):
+            if spec.get('act') == 'relu6':
+                return Fn.relu6(x)
+            if spec.get('act') == 'ReLU6':
+                return self.act6(x)
+            return Fn.relu(x)
     net = Net()
     net.eval()
     return net, g
@@ -255,7 +278,9 @@ def build_fq(spec):
             elif n.endswith('clip_val') and 'fixed_clip' in spec:
                 p.fill_(spec['fixed_clip'])
             elif n.endswith('clip_val') and 'input_quantizer' not in n and 'in_mps_quantizer' not in n:
-                p.fill_(round(float(torch.empty(1).uniform_(0.4, 8.0, generator=g)), 3))
+                # with ReLU6 after the quantizer a clip value above 6 leaves the quantization grid (6.0 is not a level):
+                # there is no integer image then, such nets are outside what C14 can state
+                p.fill_(round(float(torch.empty(1).uniform_(0.4, 6.0 if spec.get('act') else 8.0, generator=g)), 3))
     m.eval()
     x = torch.rand((2, spec['cin'], spec['h'], spec['w']), generator=g)
     m(x)
@@ -320,6 +345,8 @@ def layer_feature(fl):
             f.append('last-conv')
         if fl.groups > 1:
             f.append('depthwise')
+        if fl.padding_mode != 'zeros':
+            f.append('padding-mode')
         if fl.padding[0] != fl.padding[1]:
             f.append('asymmetric-padding')
         if fl.dilation[0] != 1:
@@ -375,6 +402,7 @@ def _run_case(case, res):
         c['layer'] = layer
         res['viol'].append({'key': key, 'what': what, 'case': c})
 
+    inner_dummy = [n for n in names[:-1] if isinstance(fq.get_submodule(n).out_quantizer, DummyQuantizer)]
     # ---- integerize (no onnx export anywhere)
     try:
         im = integerize_arch(copy.deepcopy(fq), backend, dict(kw))
@@ -423,9 +451,33 @@ def _run_case(case, res):
             fwd_exc = e
     for h in hooks:
         h.remove()
+    if inner_dummy:
+        # MPS gave a layer that is NOT the last one a DummyQuantizer as output quantizer (network ending in a depthwise
+        # / one-channel convolution: the whole output-connected sharing component is left un-quantized): there is no
+        # integer image of that tensor; the property is checked end to end on the logits
+        with torch.no_grad():
+            ref = fq(x)
+        cnt(res, 'nets-with-unquantized-inner-tensor')
+        if fwd_exc is not None:
+            viol('C14:last-layer-depthwise', 'the layers %s before the last one have a DummyQuantizer output; the integer '
+                 'network raises %s' % (inner_dummy, str(fwd_exc)[:120]), inner_dummy[0])
+            return
+        Ll = im.get_submodule(names[-1])
+        got = y_int_net * (Ll.s_x * Ll.s_w).reshape([1, -1] + [1] * (y_int_net.dim() - 2)) if bname == 'MATCH' else y_int_net
+        err = float((got - ref).abs().max())
+        mx = float(ref.abs().max())
+        a_in = io[names[-1]][0]
+        if err > 0.02 * mx + 1e-4 or not bool(torch.all(a_in == a_in.round())):
+            viol('C14:last-layer-depthwise',
+                 'network ending in a depthwise / one-channel Conv2d: layers %s before it carry a DummyQuantizer output (treated '
+                 'as last layers: no requantisation, no clip); activations fed to the last integer layer in [%g, %g], logits of '
+                 'the integer network off by %.4g (largest fake-quantized logit %.4g)'
+                 % (inner_dummy, float(a_in.min()), float(a_in.max()), err, mx), names[-1])
+        return
     sb = kw.get('scale_bit', 24) if bname == 'MATCH' else MAUPITI_SB
     sp = kw.get('shift_pos', 24) if bname == 'MATCH' else MAUPITI_SP
     crashed_at = None
+    between_layers(case, res, viol, fq, names, io, bname)
     for li, n in enumerate(names):
         fl, L = fq.get_submodule(n), im.get_submodule(n)
         cls = type(L).__name__
@@ -441,6 +493,51 @@ def _run_case(case, res):
         with torch.no_grad():
             check_layer(case, res, viol, fq, im, n, fl, L, cls, feat, io[n], sb, sp, li == len(names) - 1)
     res['layers'] += len(io)
+
+
+def between_layers(case, res, viol, fq, names, io, bname):
+    """what happens BETWEEN two integer layers (activation, pooling, flatten) must commute with the integer image:
+    the input of layer k+1 in the integer network = levels of [ops of the fake-quantized network applied to the
+    de-quantized output of integer layer k].  (The per-layer comparison alone cannot see an op that acts on integer
+    levels as if they were real values, e.g. ReLU6 clipping the levels at 6.)"""
+    import torch
+    import torch.nn.functional as Fn
+    from plinio.methods.mps.quant.quantizers import DummyQuantizer
+    spec = case['spec']
+    for a, b in zip(names, names[1:]):
+        if a not in io or b not in io:
+            return
+        la = fq.get_submodule(a)
+        if isinstance(la.out_quantizer, DummyQuantizer):
+            return
+        p = int(la.out_quantizer.precision)
+        off = 2 ** (p - 1) if bname == 'MAUPITI' else 0
+        sf = (2 ** p - 1) / (la.out_quantizer.clip_val.data[0] + 1e-3)
+        with torch.no_grad():
+            t = (io[a][1] + off) / sf                       # de-quantized image of the integer output
+            if spec.get('act'):
+                t = Fn.relu6(t)
+            else:
+                t = Fn.relu(t)
+            lspec = spec['convs'][int(a[1:])] if a.startswith('c') else {}
+            if lspec.get('pool'):
+                t = Fn.avg_pool2d(t, 2) if lspec['pool'] == 'avg' else Fn.max_pool2d(t, 2)
+            want = t * sf
+            have = io[b][0] + off
+            if have.dim() != want.dim():
+                want = want.flatten(1)
+        cnt(res, 'between-layers-checked')
+        if tuple(want.shape) != tuple(have.shape):
+            continue                                        # reported by the shape clause of the producing layer
+        d = float((want - have).abs().max())
+        if d > 1e-2:
+            key = 'C14:%s:between-layers' % bname.lower()
+            if spec.get('act'):
+                key = 'C14:relu6:clips-integer-levels'
+            viol(key, 'the input of integer layer %s differs by up to %.4g levels from the integer image of what its '
+                 'fake-quantized counterpart receives (activation %s%s between %s and %s acts on the integer levels)'
+                 % (b, d, spec.get('act', 'relu'), ' + %s-pool' % lspec['pool'] if lspec.get('pool') else '', a, b), b)
+            return
 
 
 def check_layer(case, res, viol, fq, im, n, fl, L, cls, feat, io_n, sb, sp, is_last):
@@ -460,6 +557,11 @@ def check_layer(case, res, viol, fq, im, n, fl, L, cls, feat, io_n, sb, sp, is_l
     cnt(res, 'layer:%s:%s' % (bk, feat))
     cnt(res, 'bits:in=%d,w=%d,out=%s' % (pin, pw, pout))
 
+    if not bool(torch.all(x_int == x_int.round())) and 'avgpool' in spec_features(case['spec']):
+        viol('C14:avgpool:non-integer-activations',
+             'an AvgPool2d between two quantized layers is left in place: integer layer %s receives fractions of a level '
+             '(e.g. %r)' % (n, [v for v in x_int.reshape(-1).tolist() if v != round(v)][:3]), n)
+        return
     # ------------------------------------------------------------------ stored integers: real values
     wq = copy.deepcopy(fl.w_quantizer)
     wq.dequantize = False
@@ -577,8 +679,12 @@ def check_layer(case, res, viol, fq, im, n, fl, L, cls, feat, io_n, sb, sp, is_l
     Wd = W.double()
     if is_conv:
         geo = dict(stride=fl.stride, padding=fl.padding, dilation=fl.dilation, groups=fl.groups)
-        acc = Fn.conv2d(n_x.double(), Wd, None, **geo)
-        absacc = Fn.conv2d(n_x.double(), Wd.abs(), None, **geo)
+        xin_d = n_x.double()
+        if fl.padding_mode != 'zeros':          # as nn.Conv2d._conv_forward: explicit padding in that mode, then valid
+            xin_d = Fn.pad(xin_d, fl._reversed_padding_repeated_twice, mode=fl.padding_mode)
+            geo['padding'] = 0
+        acc = Fn.conv2d(xin_d, Wd, None, **geo)
+        absacc = Fn.conv2d(xin_d, Wd.abs(), None, **geo)
         nterms = Wd[0].numel()
     else:
         acc = Fn.linear(n_x.double(), Wd)
@@ -644,6 +750,8 @@ def check_layer(case, res, viol, fq, im, n, fl, L, cls, feat, io_n, sb, sp, is_l
             _, c, j, yi, yf, bound, gap = worst
             if stale:
                 k = stale_key
+            elif 'padding-mode' in feat:
+                k = 'C14:padding-mode-ignored'
             elif bname == 'MAUPITI' and pin != pout:
                 k = 'C14:maupiti:p_in!=p_out'
             else:
@@ -768,12 +876,16 @@ def check_layer(case, res, viol, fq, im, n, fl, L, cls, feat, io_n, sb, sp, is_l
                 skip.append([need_skip(Fr(int(a) * S[c] + zpm, 2 ** sh), Fr(int(ab) * S[c] + mag, 2 ** sh) / 2 ** 21 + q.TINY,
                                        -2 ** (pout - 1), 2 ** (pout - 1) - 1)
                              for a, ab in zip(accpM[c], absM[c])])
-            if is_conv:
+            if is_conv and fl.padding_mode == 'zeros':          # the model's padGrid is the constant padding
                 grid = x_int[0, 0][:6, :6]
                 add('pad p0=%d p1=%d v=%d x=%s' % (fl.padding[0], fl.padding[1], -2 ** (pin - 1), rl2(grid.tolist())),
                     kind='ints2', real=[[int(v) for v in row] for row in L.pad(grid[None, None])[0, 0].tolist()], skip=None,
                     what='MAUPITI padding of the layer input (each axis its own amount, value in_offset)')
             zp_real = L._zero_point.detach().reshape(-1).tolist()
+            if max(abs(v) for v in zp_real) > 2 ** 31:
+                res['obs'].append('MAUPITI: the constant added in forward, _zero_point = add_bias + clip_inf*2^shift - '
+                                  'in_offset*scale*sum(w), exceeds 32 bits (only add_bias is range-checked by the code; C14 '
+                                  'declares a range for the scaled bias, none for the zero-point)')
             add('maupiti pin=%d pout=%d sh=%d s=%s nb=%s wsum=%s acc=%s' % (pin, pout, sh, rl(S), rl(nb), rl(wsum), rl2(accpM)),
                 kind='maupiti', real=chan_lists(y_int, CAP), skip=skip, zp=zp_real, what='MAUPITI layer output / zero-point',
                 zpmag=[float(abs(nb[c]) * S[c] + 2 ** (pout - 1) * 2 ** sh + 2 ** (pin - 1) * S[c] * abs(wsum[c])) for c in range(cout)])
@@ -1020,7 +1132,7 @@ MATCH_OPTS = [{}, {'scale_bit': 16, 'shift_pos': 16}, {'scale_bit': 24, 'shift_p
 def gen_cases(rng, quick, mult=1):
     cases = []
     n = (60 if quick else 2000) * mult
-    feats = ['dil0', 'dil1', None, 'dwdil', 'sym', 'fconv', None, None]
+    feats = ['dil0', 'dil1', None, 'dwdil', 'sym', 'fconv', None, 'relu6', 'pmode', None]
     for i in range(n):
         spec = gen_net(rng, feats[i % len(feats)])
         post = POSTS[rng.randrange(len(POSTS))]
